@@ -337,7 +337,103 @@ struct Engine {
     }
 };
 
+
+// ---- L3: two timers on one CoreTiming: the aggregated fast-forward equals that many aggregated cycles ----------
+struct PairEngine {
+    Teakra::CoreTiming ct;
+    Teakra::Timer a{ct}, b{ct};
+    int irq_a = 0, irq_b = 0;
+    Result& res;
+    std::unordered_set<u64> digests;
+    explicit PairEngine(Result& r) : res(r) {
+        a.SetInterruptHandler([this]() { ++irq_a; });
+        b.SetInterruptHandler([this]() { ++irq_b; });
+    }
+    static std::vector<TS> Alphabet() {
+        std::vector<TS> v;
+        for (u16 mode : {0, 1, 2})
+            for (u16 start : {0, 1, 2, 4, 1000})
+                for (u32 counter : {0u, 1u, 2u, 3u, 10u, 1000u})
+                    for (u16 pause : {0, 1}) {
+                        TS s;
+                        std::memset(&s, 0, sizeof(s));
+                        s.mu = 1, s.pause = pause, s.mode = mode, s.sl = start, s.counter = counter;
+                        s.cl = (u16)counter;
+                        v.push_back(s);
+                    }
+        return v;
+    }
+    void Check(const TS& sa, const TS& sb, u64 maximum) {
+        Load(a, sa), Load(b, sb);
+        irq_a = irq_b = 0;
+        u64 ticks = 0;
+        try {
+            ticks = ct.Skip(maximum);
+        } catch (const Teakra::VerifAssertion& x) {
+            res.AddViolation(std::string("c15:pair:assert:") + x.expression,
+                             Fmt("CoreTiming::Skip(%llu) with timers %s and %s ends in the assertion '%s'", (unsigned long long)maximum, Show(sa).c_str(), Show(sb).c_str(), x.expression),
+                             Replay(sa, sb, maximum));
+            return;
+        }
+        TS ga = Save(a), gb = Save(b);
+        int ia = irq_a, ib = irq_b;
+        ++res.transitions, ++res.traces_validated, ++res.evaluations;
+        std::string bad;
+        if (ticks > maximum)
+            bad = Fmt("returned %llu cycles, more than the %llu asked for", (unsigned long long)ticks, (unsigned long long)maximum);
+        else if (ia || ib)
+            bad = "an interrupt fired inside the fast-forward";
+        else if (ticks <= 4096) {
+            Load(a, sa), Load(b, sb);
+            irq_a = irq_b = 0;
+            for (u64 i = 0; i < ticks; ++i)
+                ct.Tick();
+            TS ta = Save(a), tb = Save(b);
+            if (irq_a || irq_b)
+                bad = Fmt("the %llu cycles it reports contain an interrupt when stepped one by one", (unsigned long long)ticks);
+            else if (!(ta == ga))
+                bad = Fmt("first timer becomes %s, %llu single cycles give %s", Show(ga).c_str(), (unsigned long long)ticks, Show(ta).c_str());
+            else if (!(tb == gb))
+                bad = Fmt("second timer becomes %s, %llu single cycles give %s", Show(gb).c_str(), (unsigned long long)ticks, Show(tb).c_str());
+        }
+        digests.insert(Fnv(&ga, sizeof(ga), Fnv(&gb, sizeof(gb), ticks)));
+        if (!bad.empty())
+            res.AddViolation(Fmt("c15:pair:skip-vs-ticks:%s", sa.counter > sb.counter && sb.counter ? "second-expires-first" : "other"),
+                             Fmt("CoreTiming::Skip(%llu) with timers %s and %s returns %llu: %s", (unsigned long long)maximum, Show(sa).c_str(), Show(sb).c_str(),
+                                 (unsigned long long)ticks, bad.c_str()),
+                             Replay(sa, sb, maximum));
+    }
+    static std::string Replay(const TS& x, const TS& y, u64 maximum) {
+        return Fmt("c15pair %u %u %u %u %u %u %u %u | %u %u %u %u %u %u %u %u | %llu", x.mu, x.pause, x.mode, x.sh, x.sl, x.counter, x.ch, x.cl, y.mu, y.pause, y.mode, y.sh, y.sl,
+                   y.counter, y.ch, y.cl, (unsigned long long)maximum);
+    }
+    void Run() {
+        auto al = Alphabet();
+        for (const TS& x : al)
+            for (const TS& y : al)
+                for (u64 maximum : {0ull, 1ull, 2ull, 3ull, 9ull, 999ull, 5000ull})
+                    Check(x, y, maximum);
+        res.states += al.size() * al.size();
+    }
+};
+
 inline int RunReplay(const std::string& r, Result& res) {
+    {
+        unsigned v[16];
+        unsigned long long mx;
+        if (std::sscanf(r.c_str(), "c15pair %u %u %u %u %u %u %u %u | %u %u %u %u %u %u %u %u | %llu", &v[0], &v[1], &v[2], &v[3], &v[4], &v[5], &v[6], &v[7], &v[8], &v[9],
+                        &v[10], &v[11], &v[12], &v[13], &v[14], &v[15], &mx) == 17) {
+            TS x, y;
+            std::memset(&x, 0, sizeof(x)), std::memset(&y, 0, sizeof(y));
+            x.mu = v[0], x.pause = v[1], x.mode = v[2], x.sh = v[3], x.sl = v[4], x.counter = v[5], x.ch = v[6], x.cl = v[7];
+            y.mu = v[8], y.pause = v[9], y.mode = v[10], y.sh = v[11], y.sl = v[12], y.counter = v[13], y.ch = v[14], y.cl = v[15];
+            PairEngine pe(res);
+            pe.Check(x, y, mx);
+            for (auto& vi : res.violations)
+                std::printf("  %s\n    %s\n", vi.key.c_str(), vi.text.c_str());
+            return res.violations.empty() ? 0 : 1;
+        }
+    }
     TS s;
     std::memset(&s, 0, sizeof(s));
     unsigned a[8];
@@ -364,7 +460,8 @@ inline void Run(const Args& args, Result& res) {
         "BFS over a real Teakra::Timer; state = all public fields; events Tick, TickEvent, Restart, "
         "mode/pause/MU/start writes, Skip(k) for every k<=min(GetMaxSkip,8) plus horizon, horizon-1, "
         "horizon/2 and large k for infinite horizons; every transition is compared with the statement "
-        "model and Skip(k) with k real Ticks; non-trivial = transition that changes state or fires";
+        "model and Skip(k) with k real Ticks; the aggregated fast-forward of two timers (CoreTiming::Skip) against the same number of aggregated "
+        "cycles; non-trivial = transition that changes state or fires";
     Engine eng(res, args.thorough());
     TS init;
     std::memset(&init, 0, sizeof(init));
@@ -373,9 +470,12 @@ inline void Run(const Args& args, Result& res) {
     eng.Explore(init, true, depth, 30000000ull, "L1_full_alphabet");
     // L2: modes {single,auto,event}, start in 0..3 -> finite machine, explored to fixpoint
     eng.Explore(init, false, 1000, 30000000ull, "L2_fixpoint");
-    res.distinct_nontrivial = eng.outcome_digests.size();
+    PairEngine pe(res);
+    pe.Run();
+    res.distinct_nontrivial = eng.outcome_digests.size() + pe.digests.size();
     res.bound = Fmt("L1 depth %d over the full alphabet; L2 complete reachable set of the start<=3, "
-                    "non-free-running sub-machine",
+                    "non-free-running sub-machine; L3 two timers on one CoreTiming: 180 x 180 state pairs x 7 budgets, CoreTiming::Skip vs that many "
+                    "CoreTiming::Tick",
                     depth);
     res.assumptions = {"time scale (TS) fixed at 0: the model asserts on any other value",
                        "Restart in free-running mode is taken from the implementation (statement silent)",
